@@ -261,6 +261,11 @@ func genC09(g *Gen, tier string, w *bufio.Writer) {
 			}
 		}
 	}
+	for _, ct := range wideContainers() {
+		for k := 0; k < 3; k++ {
+			emitC09(w, ct, g.RandVal(ct, 200))
+		}
+	}
 	for _, n := range append(append(append([]uint64{}, smallNums...), packNums...), bitNums...) {
 		bl := &Ty{Kind: KBitlist, N: n}
 		for _, ln := range []uint64{0, 1, n / 2, n - 1, n} {
